@@ -14,11 +14,14 @@ var h02Bounds = map[string]string{
 	"H02":     "recipe family: Allow/Require/Exclude symbolic within the masks given as harness parameters (allowmask/requiremask/excludemask, bits Uppers=1 Lowers=2 Digits=4 Symbols=8 Ambiguous=16); AllowChars and ExcludeChars each one of the first `strings` probe strings (\"\", a, 0a5, é!é, ✓Z, O0, ab, xyz!); RequireSets one of the first `reqsets` probe families (nil, {0}, {a,5é}, {\"\",ab}, {ab,bc}, {✓,!@,Z}, {0123456789}, {aa}, {Il1,0123456789}, {7,7}, {ab,ba}); Length 1..L; MaxTrials 1..T; every draw symbolic (all alphabet indices, all accept/reject patterns)",
 	"quick":   "masks 12/4/16, strings 3, reqsets 11, L 2, T 2",
 	"thorough": "masks 14/4/20, strings 3, reqsets 11, L 2, T 2; and L = 3 with masks 12/4/16, strings 2, reqsets 6",
+	"low-byte-aliases": "AllowChars İš (U+0130, U+0161: characters above U+00FF whose low bytes are '0' and 'a'), ExcludeChars \"\" or a, RequireSets nil, {0}, {a,5é}, Allow/Require within Digits",
+	"after-sibling-call": "before the recipe is used, a sibling recipe makes a full call sequence: its required sets joined by \",\", \"\" or \" \", split into single characters, or replaced by sets of the same sizes that are pairwise disjoint resp. nested",
 	"outside": "lengths above L, MaxTrials above T, custom strings outside the probe lists; the pre-flight refusal (MaxFailRate is set to 1 by the harness) is C13's subject",
 }
 
 var h04Bounds = map[string]string{
 	"H04":     "word lists: eleven concrete lists of 1, 2, 3, 5, 7 words (ASCII, non-ASCII, with a word that does not change under title-casing, with a pre-capitalised word, with leading punctuation, with multi-part words, with the empty word); Length 1..L (quick 2, thorough 3) and, on the first two lists with every scheme except 'random', Length 64..66 (thorough 63..70); the five capitalisation schemes and one unknown scheme string; separators: constant \"\", \"-\", \"→\", SFNone, SFDigits1, SFDigitsNoAmbiguous2 and a constructed function over the alphabet é✓!; every draw symbolic",
+	"long-random-scheme": "scheme 'random' at Length 64..66 (thorough 63..70) on the one-word list: the coins take the concrete vectors all-heads, all-tails and alternating, with one coin at position 0, 31, 32, 63, 64 or Length-1 (or none) left symbolic - 2^Length coin vectors are not enumerated",
 	"outside": "lists of more than 7 words enter only through the bound n = Size(), which C01 covers for every n; lengths above L (in particular above 64); the 18 328-word shipped list is exercised concretely in C16",
 }
 
@@ -55,6 +58,8 @@ func propSpecs() map[string]*PropSpec {
 					Reach:    []string{"returned", "accepted", "accepted-after-retry", "exhausted", "empty-alphabet"}},
 				{Name: "H02", Label: "length-3", ThoroughOnly: true, Thorough: P{"allowmask": 12, "requiremask": 4, "excludemask": 16, "strings": 2, "reqsets": 6, "Lmin": 3, "L": 3, "T": 2},
 					Reach: []string{"returned", "accepted", "accepted-after-retry"}},
+				{Name: "H02", Label: "low-byte-aliases", Quick: P{"allowmask": 4, "requiremask": 4, "excludemask": 0, "stringmin": 8, "strings": 9, "xstrings": 2, "reqsets": 3, "L": 2, "T": 2}, Thorough: P{"allowmask": 6, "requiremask": 6, "excludemask": 16, "stringmin": 8, "strings": 9, "xstrings": 3, "reqsets": 3, "L": 2, "T": 2}, Reach: []string{"returned", "accepted", "accepted-after-retry"}},
+				{Name: "H02", Label: "after-sibling-call", Quick: P{"allowmask": 4, "requiremask": 0, "excludemask": 16, "strings": 2, "reqsets": 11, "L": 1, "T": 1, "primes": 7}, Thorough: P{"allowmask": 4, "requiremask": 4, "excludemask": 16, "strings": 3, "reqsets": 11, "L": 2, "T": 2, "primes": 7}, Reach: []string{"returned", "primed"}},
 				{Name: "H01", Label: "kernel-contract", Int: true, Quick: P{"unwind:randomUint32n": 5, "unwind_expected": 1, "maxdecisions": 40}, Thorough: P{"unwind:randomUint32n": 10, "unwind_expected": 1, "maxdecisions": 45}, Reach: []string{"returned", "after-rejection"}},
 				{Name: "H01P", Label: "kernel-contract", Reach: []string{"returned"}},
 			},
@@ -69,9 +74,10 @@ func propSpecs() map[string]*PropSpec {
 					Reach:    []string{"returned", "accepted", "empty-alphabet"}},
 				{Name: "H02", Label: "long-with-two-required-sets", Quick: P{"allowmask": 0, "requiremask": 0, "excludemask": 0, "strings": 1, "reqsetmin": 4, "reqsets": 5, "Lmin": 26, "L": 26, "T": 2}, Thorough: P{"allowmask": 0, "requiremask": 0, "excludemask": 0, "strings": 1, "reqsetmin": 4, "reqsets": 5, "Lmin": 26, "L": 26, "T": 2}, Reach: []string{"accepted", "accepted-after-retry"}},
 				{Name: "H02", Label: "generated-again", Quick: P{"allowmask": 4, "requiremask": 4, "excludemask": 0, "strings": 2, "reqsets": 3, "L": 2, "T": 1, "again": 1}, Thorough: P{"allowmask": 12, "requiremask": 4, "excludemask": 16, "strings": 2, "reqsets": 4, "L": 2, "T": 2, "again": 1}, Reach: []string{"generated-again"}},
-				{Name: "H02", Label: "after-sibling-call", Quick: P{"allowmask": 4, "requiremask": 0, "excludemask": 16, "strings": 2, "reqsets": 11, "L": 1, "T": 1, "primes": 5}, Thorough: P{"allowmask": 4, "requiremask": 4, "excludemask": 16, "strings": 3, "reqsets": 11, "L": 2, "T": 2, "primes": 5}, Reach: []string{"returned", "primed"}},
+				{Name: "H02", Label: "after-sibling-call", Quick: P{"allowmask": 4, "requiremask": 0, "excludemask": 16, "strings": 2, "reqsets": 11, "L": 1, "T": 1, "primes": 7}, Thorough: P{"allowmask": 4, "requiremask": 4, "excludemask": 16, "strings": 3, "reqsets": 11, "L": 2, "T": 2, "primes": 7}, Reach: []string{"returned", "primed"}},
 				{Name: "H02", Label: "custom-strings", ThoroughOnly: true, Thorough: P{"allowmask": 12, "requiremask": 4, "excludemask": 16, "strings": 5, "reqsets": 11, "L": 2, "T": 2},
 					Reach: []string{"returned", "accepted", "accepted-after-retry"}},
+				{Name: "H02", Label: "low-byte-aliases", Quick: P{"allowmask": 4, "requiremask": 4, "excludemask": 0, "stringmin": 8, "strings": 9, "xstrings": 2, "reqsets": 3, "L": 2, "T": 2}, Thorough: P{"allowmask": 6, "requiremask": 6, "excludemask": 16, "stringmin": 8, "strings": 9, "xstrings": 3, "reqsets": 3, "L": 2, "T": 2}, Reach: []string{"returned", "accepted", "accepted-after-retry"}},
 			},
 			Bounds: h02Bounds,
 			Assume: append([]string{"bounded draws are summarised by the kernel contract verified by C01"}, commonAssume...),
@@ -81,6 +87,7 @@ func propSpecs() map[string]*PropSpec {
 			Harnesses: []HSpec{
 				{Name: "H04", Quick: P{"L": 2}, Thorough: P{"L": 3}, Reach: []string{"returned", "structure", "capitalised"}},
 				{Name: "H04", Label: "long", Quick: P{"Lmin": 64, "L": 66, "lists": 2, "schemes": 5, "seps": 2}, Thorough: P{"Lmin": 63, "L": 70, "lists": 2, "schemes": 5, "seps": 2}, Reach: []string{"returned", "structure", "capitalised"}},
+				{Name: "H04", Label: "long-random-scheme", Quick: P{"Lmin": 64, "L": 66, "lists": 1, "schememin": 5, "schemes": 6, "seps": 2, "coins": 1}, Thorough: P{"Lmin": 63, "L": 70, "lists": 1, "schememin": 5, "schemes": 6, "seps": 2, "coins": 1}, Reach: []string{"returned", "structure", "capitalised", "scripted-coins"}},
 				{Name: "H04", Label: "three-words-all-separators", Quick: P{"Lmin": 3, "L": 4, "lists": 3, "schemes": 4}, Thorough: P{"Lmin": 3, "L": 4, "lists": 4, "schemes": 6}, Reach: []string{"returned", "structure"}},
 				{Name: "H04", Label: "after-capitalising-call", Quick: P{"L": 2, "lists": 4, "seps": 3, "prime": 1}, Thorough: P{"L": 3, "lists": 6, "seps": 5, "prime": 1}, Reach: []string{"returned", "structure", "primed"}},
 				{Name: "H01", Label: "kernel-contract", Int: true, Quick: P{"unwind:randomUint32n": 5, "unwind_expected": 1, "maxdecisions": 40}, Thorough: P{"unwind:randomUint32n": 10, "unwind_expected": 1, "maxdecisions": 45}, Reach: []string{"returned", "after-rejection"}},
@@ -94,6 +101,7 @@ func propSpecs() map[string]*PropSpec {
 			Harnesses: []HSpec{
 				{Name: "H04", Quick: P{"L": 2}, Thorough: P{"L": 3}, Reach: []string{"returned", "structure", "capitalised"}},
 				{Name: "H04", Label: "long", Quick: P{"Lmin": 64, "L": 66, "lists": 2, "schemes": 5, "seps": 2}, Thorough: P{"Lmin": 63, "L": 70, "lists": 2, "schemes": 5, "seps": 2}, Reach: []string{"returned", "structure", "capitalised"}},
+				{Name: "H04", Label: "long-random-scheme", Quick: P{"Lmin": 64, "L": 66, "lists": 1, "schememin": 5, "schemes": 6, "seps": 2, "coins": 1}, Thorough: P{"Lmin": 63, "L": 70, "lists": 1, "schememin": 5, "schemes": 6, "seps": 2, "coins": 1}, Reach: []string{"returned", "structure", "capitalised", "scripted-coins"}},
 				{Name: "H04", Label: "three-words-all-separators", Quick: P{"Lmin": 3, "L": 4, "lists": 3, "schemes": 4}, Thorough: P{"Lmin": 3, "L": 4, "lists": 4, "schemes": 6}, Reach: []string{"returned", "structure"}},
 				{Name: "H04", Label: "after-capitalising-call", Quick: P{"L": 2, "lists": 4, "seps": 3, "prime": 1}, Thorough: P{"L": 3, "lists": 6, "seps": 5, "prime": 1}, Reach: []string{"returned", "structure", "primed"}},
 				{Name: "H01", Label: "kernel-contract", Int: true, Quick: P{"unwind:randomUint32n": 5, "unwind_expected": 1, "maxdecisions": 40}, Thorough: P{"unwind:randomUint32n": 10, "unwind_expected": 1, "maxdecisions": 45}, Reach: []string{"returned", "after-rejection"}},
@@ -127,7 +135,7 @@ func propSpecs() map[string]*PropSpec {
 				{Name: "H07", Label: "long", Quick: P{"a": 2, "k": 2, "m": 2, "big": 1}, Thorough: P{"a": 2, "k": 3, "m": 2, "big": 1}, Reach: []string{"computed", "overlapping-required-sets"}},
 				{Name: "H07", Label: "word-size-boundaries", Quick: P{"a": 2, "k": 2, "m": 2, "big": 2}, Thorough: P{"a": 2, "k": 3, "m": 2, "big": 2}, Reach: []string{"computed", "overlapping-required-sets"}},
 				{Name: "H07", Label: "class-flags", Quick: P{"a": 0, "k": 1, "m": 2, "L": 2, "flags": 6}, Thorough: P{"a": 1, "k": 2, "m": 1, "L": 3, "flags": 6}, Reach: []string{"computed", "overlapping-required-sets", "premise-excluded"}},
-				{Name: "H07", Label: "after-sibling-call", Quick: P{"a": 1, "k": 2, "m": 2, "L": 2, "primes": 5}, Thorough: P{"a": 2, "k": 2, "m": 2, "L": 3, "primes": 5}, Reach: []string{"computed", "primed"}},
+				{Name: "H07", Label: "after-sibling-call", Quick: P{"a": 1, "k": 2, "m": 2, "L": 2, "primes": 7}, Thorough: P{"a": 2, "k": 2, "m": 2, "L": 3, "primes": 7}, Reach: []string{"computed", "primed"}},
 				{Name: "H07", Label: "four-sets", ThoroughOnly: true, Thorough: P{"a": 1, "k": 4, "m": 1, "L": 3}, Reach: []string{"computed", "overlapping-required-sets"}},
 			},
 			Bounds: map[string]string{
@@ -145,7 +153,7 @@ func propSpecs() map[string]*PropSpec {
 				{Name: "H13b", Label: "class-flags", Quick: P{"a": 0, "k": 2, "m": 1, "L": 2, "flags": 3}, Thorough: P{"a": 1, "k": 2, "m": 1, "L": 2, "flags": 4}, Reach: []string{"computed", "comfortably-acceptable", "clearly-unacceptable"}},
 				{Name: "H13b", Label: "exclude-chars", Quick: P{"a": 2, "k": 1, "m": 2, "e": 2, "L": 2, "flags": 1}, Thorough: P{"a": 2, "k": 1, "m": 2, "e": 2, "L": 3, "flags": 1}, Reach: []string{"computed"}},
 				{Name: "H13b", Label: "beyond-float64", Quick: P{"a": 0, "k": 1, "m": 1, "flags": 4, "bigL": 1}, Thorough: P{"a": 0, "k": 1, "m": 1, "flags": 4, "bigL": 1}, Reach: []string{"computed"}},
-				{Name: "H13b", Label: "after-sibling-call", Quick: P{"a": 0, "k": 2, "m": 2, "L": 2, "flags": 1, "primes": 5}, Thorough: P{"a": 0, "k": 2, "m": 2, "L": 3, "flags": 1, "primes": 5}, Reach: []string{"computed", "primed"}},
+				{Name: "H13b", Label: "after-sibling-call", Quick: P{"a": 0, "k": 2, "m": 2, "L": 2, "flags": 1, "primes": 7}, Thorough: P{"a": 0, "k": 2, "m": 2, "L": 3, "flags": 1, "primes": 7}, Reach: []string{"computed", "primed"}},
 				{Name: "H02", Label: "retry-budget", Quick: P{"allowmask": 4, "requiremask": 4, "excludemask": 16, "strings": 2, "reqsets": 6, "L": 2, "T": 3}, Thorough: P{"allowmask": 12, "requiremask": 4, "excludemask": 16, "strings": 2, "reqsets": 6, "L": 2, "T": 3}, Reach: []string{"exhausted", "accepted-after-retry"}},
 			},
 			Bounds: map[string]string{
